@@ -227,16 +227,16 @@ package leveldb
 //@ func (*DB).unlockWrite
 //@   props C09 C10
 //@   requires held(db.writeLockC) >= 1
-//@   requires [C10:merged-nonneg] merged >= 0
+//@   requires [C09,C10:merged-nonneg] merged >= 0
 //@   touches held(db.writeLockC)
 //@   loop 1
-//@     invariant [C10:acks-so-far] 0 <= i && i <= merged && sent(db.writeAckC) == old(sent(db.writeAckC)) + i
-//@     invariant [C10:nothing-else] sentv(db.writeMergedC, false) == old(sentv(db.writeMergedC, false)) && sentv(db.writeMergedC, true) == old(sentv(db.writeMergedC, true))
+//@     invariant [C09,C10:acks-so-far] 0 <= i && i <= merged && sent(db.writeAckC) == old(sent(db.writeAckC)) + i
+//@     invariant [C09,C10:nothing-else] sentv(db.writeMergedC, false) == old(sentv(db.writeMergedC, false)) && sentv(db.writeMergedC, true) == old(sentv(db.writeMergedC, true))
 //@   ensures [C09,C10:released-or-handed-over] held(db.writeLockC) == old(held(db.writeLockC)) - 1
-//@   ensures [C10:one-ack-per-merged-writer] sent(db.writeAckC) == old(sent(db.writeAckC)) + merged
-//@   ensures [C10:handoff-iff-overflow] sentv(db.writeMergedC, false) == old(sentv(db.writeMergedC, false)) + (overflow ? 1 : 0)
-//@   ensures [C10:no-merged-reply-here] sentv(db.writeMergedC, true) == old(sentv(db.writeMergedC, true))
-//@   ensures [C10:takes-no-reply-or-ack-and-asks-for-no-merge] recvd(db.writeAckC) == old(recvd(db.writeAckC)) && recvd(db.writeMergedC) == old(recvd(db.writeMergedC)) && recvdv(db.writeMergedC, true) == old(recvdv(db.writeMergedC, true)) && sent(db.writeMergeC) == old(sent(db.writeMergeC))
+//@   ensures [C09,C10:one-ack-per-merged-writer] sent(db.writeAckC) == old(sent(db.writeAckC)) + merged
+//@   ensures [C09,C10:handoff-iff-overflow] sentv(db.writeMergedC, false) == old(sentv(db.writeMergedC, false)) + (overflow ? 1 : 0)
+//@   ensures [C09,C10:no-merged-reply-here] sentv(db.writeMergedC, true) == old(sentv(db.writeMergedC, true))
+//@   ensures [C09,C10:takes-no-reply-or-ack-and-asks-for-no-merge] recvd(db.writeAckC) == old(recvd(db.writeAckC)) && recvd(db.writeMergedC) == old(recvd(db.writeMergedC)) && recvdv(db.writeMergedC, true) == old(recvdv(db.writeMergedC, true)) && sent(db.writeMergeC) == old(sent(db.writeMergeC))
 
 // C09 (no call spins forever): the write throttle retries; a retry that has not waited for a compaction to finish is
 // the one-millisecond slowdown, and it is taken at most once per write (it flips `delayed`), so the retry loop of
@@ -288,17 +288,17 @@ package leveldb
 //@   requires held(db.writeLockC) >= 1
 //@   touches held(db.writeLockC)
 //@   loop 1
-//@     invariant [C10:merge-accounting] merged >= 0 && !overflow && recvd(db.writeMergeC) == old(recvd(db.writeMergeC)) + merged
-//@     invariant [C10:replies-so-far] sentv(db.writeMergedC, true) == old(sentv(db.writeMergedC, true)) + merged && sentv(db.writeMergedC, false) == old(sentv(db.writeMergedC, false))
-//@     invariant [C10:no-acks-yet] sent(db.writeAckC) == old(sent(db.writeAckC))
-//@     invariant [C10:no-actions-yet] calls("(*DB).writeJournal") == old(calls("(*DB).writeJournal")) && calls("(*DB).addSeq") == old(calls("(*DB).addSeq")) && calls("(*DB).unlockWrite") == old(calls("(*DB).unlockWrite"))
+//@     invariant [C09,C10:merge-accounting] merged >= 0 && !overflow && recvd(db.writeMergeC) == old(recvd(db.writeMergeC)) + merged
+//@     invariant [C09,C10:replies-so-far] sentv(db.writeMergedC, true) == old(sentv(db.writeMergedC, true)) + merged && sentv(db.writeMergedC, false) == old(sentv(db.writeMergedC, false))
+//@     invariant [C09,C10:no-acks-yet] sent(db.writeAckC) == old(sent(db.writeAckC))
+//@     invariant [C09,C10:no-actions-yet] calls("(*DB).writeJournal") == old(calls("(*DB).writeJournal")) && calls("(*DB).addSeq") == old(calls("(*DB).addSeq")) && calls("(*DB).unlockWrite") == old(calls("(*DB).unlockWrite"))
 //@   ensures [C09,C10:released-on-every-path] held(db.writeLockC) == old(held(db.writeLockC)) - 1
-//@   ensures [C10:every-merged-writer-acked-once] sent(db.writeAckC) - old(sent(db.writeAckC)) == sentv(db.writeMergedC, true) - old(sentv(db.writeMergedC, true))
-//@   ensures [C10:every-request-answered-once] recvd(db.writeMergeC) - old(recvd(db.writeMergeC)) == (sentv(db.writeMergedC, true) - old(sentv(db.writeMergedC, true))) + (sentv(db.writeMergedC, false) - old(sentv(db.writeMergedC, false)))
-//@   ensures [C10:the-leader-takes-no-reply-or-ack-and-asks-for-no-merge] recvd(db.writeAckC) == old(recvd(db.writeAckC)) && recvd(db.writeMergedC) == old(recvd(db.writeMergedC)) && recvdv(db.writeMergedC, true) == old(recvdv(db.writeMergedC, true)) && sent(db.writeMergeC) == old(sent(db.writeMergeC))
-//@   ensures [C10:one-release-or-handoff] calls("(*DB).unlockWrite") == old(calls("(*DB).unlockWrite")) + 1
-//@   ensures [C10:one-journal-record-one-publication] result == nil ==> (calls("(*DB).writeJournal") == old(calls("(*DB).writeJournal")) + 1 && calls("(*DB).addSeq") == old(calls("(*DB).addSeq")) + 1)
-//@   ensures [C10:never-two-journal-records] calls("(*DB).writeJournal") <= old(calls("(*DB).writeJournal")) + 1 && calls("(*DB).addSeq") <= old(calls("(*DB).addSeq")) + 1
+//@   ensures [C09,C10:every-merged-writer-acked-once] sent(db.writeAckC) - old(sent(db.writeAckC)) == sentv(db.writeMergedC, true) - old(sentv(db.writeMergedC, true))
+//@   ensures [C09,C10:every-request-answered-once] recvd(db.writeMergeC) - old(recvd(db.writeMergeC)) == (sentv(db.writeMergedC, true) - old(sentv(db.writeMergedC, true))) + (sentv(db.writeMergedC, false) - old(sentv(db.writeMergedC, false)))
+//@   ensures [C09,C10:the-leader-takes-no-reply-or-ack-and-asks-for-no-merge] recvd(db.writeAckC) == old(recvd(db.writeAckC)) && recvd(db.writeMergedC) == old(recvd(db.writeMergedC)) && recvdv(db.writeMergedC, true) == old(recvdv(db.writeMergedC, true)) && sent(db.writeMergeC) == old(sent(db.writeMergeC))
+//@   ensures [C09,C10:one-release-or-handoff] calls("(*DB).unlockWrite") == old(calls("(*DB).unlockWrite")) + 1
+//@   ensures [C09,C10:one-journal-record-one-publication] result == nil ==> (calls("(*DB).writeJournal") == old(calls("(*DB).writeJournal")) + 1 && calls("(*DB).addSeq") == old(calls("(*DB).addSeq")) + 1)
+//@   ensures [C09,C10:never-two-journal-records] calls("(*DB).writeJournal") <= old(calls("(*DB).writeJournal")) + 1 && calls("(*DB).addSeq") <= old(calls("(*DB).addSeq")) + 1
 
 //@ func (*Transaction).setDone
 //@   props C09 C11
@@ -386,7 +386,7 @@ package leveldb
 // compactionError is the background goroutine that owns the error state; in its persistent-error state it
 // takes the write lock and parks it in db.compWriteLocking until close.
 //@ func (*DB).compactionError
-//@   props C09 C18
+//@   props C09 C18 C10
 //@   requires [lk-parked] db.compWriteLocking ==> held(db.writeLockC) >= 1
 //@   touches held(db.writeLockC)
 //@   loop @noerr
@@ -395,7 +395,7 @@ package leveldb
 //@     invariant [lk-parked] db.compWriteLocking ==> held(db.writeLockC) >= 1
 //@   loop 2
 //@     invariant [lk-parked] db.compWriteLocking ==> held(db.writeLockC) >= 1
-//@     invariant [C09,C18:a-read-only-request-is-never-held-as-a-transient-error] err != ErrReadOnly
+//@     invariant [C09,C10,C18:a-read-only-request-is-never-held-as-a-transient-error] err != ErrReadOnly
 //@   loop 3
 //@     invariant [lk-parked] db.compWriteLocking ==> held(db.writeLockC) >= 1
 //@     invariant [C09,C18:the-persistent-error-state-is-flagged-while-it-lasts] db.compPerErrSet == 1
@@ -490,13 +490,13 @@ package leveldb
 //@   ensures [C04:built-means-finished] err == nil ==> (f != nil && calls("(*tWriter).finish") > old(calls("(*tWriter).finish")))
 
 //@ func (*Transaction).flush
-//@   props C04 C11
+//@   props C04 C11 C02 C03
 //@   at before call (*sessionRecord).addTableFile#1
 //@     assert [C04:finished-before-recorded] err == nil && t != nil
 // (C11: iterators of the transaction hold a reference on its buffer; the buffer is wiped in place only when the
 // transaction is its sole holder, otherwise a new one is taken and the old one is left to its readers)
 //@   at before call (*DB).Reset#*
-//@     assert [C11:buffer-wiped-in-place-only-when-nobody-else-holds-it] tr.mem.ref == 1
+//@     assert [C02,C03,C11:buffer-wiped-in-place-only-when-nobody-else-holds-it] tr.mem.ref == 1
 //@   at before call (*sessionRecord).addTableFile#1
 //@     assert [C04,C11:spilled-table-is-a-level-0-table-of-the-transaction] arg0 == 0 && arg1 == t
 
@@ -572,7 +572,7 @@ package leveldb
 //@ ghost var gSnapV ref
 //@ ghost var gSnapped bool
 //@ func (*session).commit
-//@   props C04 C08 C06 C01 C07
+//@   props C04 C08 C06 C01 C07 C11
 //@   mode bv
 //@   at entry
 //@     ghost gSnapped = false
@@ -581,8 +581,8 @@ package leveldb
 //@     ghost gSnapped = true
 //@   at before call (*session).setVersion#1
 //@     assert [C04,C08:install-only-on-success] err == nil
-//@     assert [C01,C04,C06,C08:a-rewritten-manifest-snapshots-the-version-being-installed] gSnapped ==> arg1 == gSnapV
-//@     assert [C01,C04,C06,C08:the-version-installed-is-the-one-spawned-from-this-record] arg0 == r && arg1 == nv
+//@     assert [C01,C04,C06,C08,C11:a-rewritten-manifest-snapshots-the-version-being-installed] gSnapped ==> arg1 == gSnapV
+//@     assert [C01,C04,C06,C08,C11:the-version-installed-is-the-one-spawned-from-this-record] arg0 == r && arg1 == nv
 // (C07: when the manifest is rotated, the record rewritten into a full snapshot is a scratch record, not the caller's:
 // the caller's record becomes the delta for the file reference counts, and as a snapshot it would count every live
 // table once more - none of them would ever be removed again)
@@ -1051,7 +1051,7 @@ package leveldb
 // twice by the reference loop and are never removed when a compaction retires them (until the next open).
 //@ ghost var gRecCarriesCommittedTables bool
 //@ func (*DB).recoverJournal
-//@   props C04 C07 C08 C01
+//@   props C04 C07 C08 C01 C19
 //@   at entry
 //@     ghost gRecCarriesCommittedTables = false
 //@   loop 2
@@ -1067,7 +1067,7 @@ package leveldb
 //@   at before call (*session).commit#2
 //@     assert [C07:a-committed-record-carries-no-tables-into-the-next-commit] !gRecCarriesCommittedTables
 //@   at call (*session).markFileNum#1
-//@     assert [C01,C04:highest-replayed-journal-number-is-retired] fds[len(fds)-1].Num < db.s.stNextFileNum
+//@     assert [C01,C04,C19:highest-replayed-journal-number-is-retired] fds[len(fds)-1].Num < db.s.stNextFileNum
 //@   at before call (*session).commit#1
 //@     assert [C01,C04:recovery-commit-carries-numbers] recHas(rec.hasRec, recJournalNum) && recHas(rec.hasRec, recSeqNum) && rec.journalNum == fd.Num && rec.seqNum == db.seq
 //@   at before call (*session).commit#2
@@ -1960,6 +1960,16 @@ package leveldb
 //@   abstract keys
 //@   requires sortedDisjoint(tf)
 //@   ensures [partition-point] 0 <= result && result <= len(tf) && (forall j int :: 0 <= j && j < result ==> ikcmp(tf[j].imax, ikey) < 0) && (forall j int :: result <= j && j < len(tf) ==> ikcmp(tf[j].imax, ikey) >= 0)
+// C06: the order in which the tables of a level below the top are kept - by their smallest INTERNAL key (user key
+// under the configured comparer, then newer before older), ties by file number. Ordered by user keys under the
+// bytewise view of the whole internal key instead, two tables whose smallest user keys are P and P\x00... change
+// places and the binary searches of the level look into the wrong table.
+//@ func (tFiles).lessByKey
+//@   props C06 C01
+//@   abstract keys
+//@   safety off
+//@   requires 0 <= i && i < len(tf) && 0 <= j && j < len(tf) && tf[i] != nil && tf[j] != nil
+//@   ensures [C01,C06:a-level-is-ordered-by-smallest-internal-key-then-file-number] result <==> (ikcmp(tf[i].imin, tf[j].imin) < 0 || (ikcmp(tf[i].imin, tf[j].imin) == 0 && tf[i].fd.Num < tf[j].fd.Num))
 //@ func (tFiles).searchMin
 //@   props C06
 //@   abstract keys
@@ -2074,6 +2084,7 @@ package leveldb
 // frozen journal counts as live while it exists). Table files are removed only if the live version does not list
 // them: that part goes through a Go map, which the verifier does not model - not proved.
 //@ spec func stale(db ref, fd ref) bool = (fd.Type == storage.TypeManifest && fd.Num != db.s.manifestFd.Num) || (fd.Type == storage.TypeJournal && ((db.frozenJournalFd.Type != 0 || db.frozenJournalFd.Num != 0) ? fd.Num < db.frozenJournalFd.Num : fd.Num < db.journalFd.Num)) || fd.Type == storage.TypeTable || fd.Type == storage.TypeTemp
+//@ ghost var gTableListed bool
 //@ func (*DB).checkAndCleanFiles
 //@   props C07
 //@   safety off
@@ -2088,7 +2099,12 @@ package leveldb
 // kept (F13: temporary files used to be kept for ever). Any manifest but the live one is stale, also one with a higher
 // number - the leftover of a rotation that crashed before the pointer was switched (F21); the janitor runs once,
 // inside Open, after this run's manifest exists and with the storage locked.
+// ... and for a table the decision IS the answer of the lookup in the set of tables the live version lists (the set
+// itself is a Go map and not modelled: the answer is taken as it comes, and what is checked is that nothing else decides).
+//@   at after stmt _, keep = tmap[fd.Num]
+//@     ghost gTableListed = keep
 //@   at before stmt if !keep
+//@     assert [C07:a-table-is-kept-exactly-when-the-live-version-lists-it] fd.Type == storage.TypeTable ==> keep == gTableListed
 //@     assert [C07:a-temporary-file-is-never-kept] fd.Type == storage.TypeTemp ==> !keep
 //@     assert [C07:no-manifest-but-the-live-one-and-no-old-journal-is-kept] (fd.Type != storage.TypeTable && fd.Type != storage.TypeTemp && stale(db, fd)) ==> !keep
 
@@ -2099,13 +2115,16 @@ package leveldb
 // tables the entry with the highest sequence number wins; at a deeper level the first table holding the user key
 // decides and stops the walk; a table without the user key changes nothing and lets the walk go on.
 //@ func (*version).get$1
-//@   props C01 C19
+//@   props C01 C19 C16
 //@   abstract keys
 //@   safety off
 //@   guarantees [C01,C19:other-keys-change-nothing] (result && ferr == nil) ==> ((kcmp(ukey, fukey) != 0) ==> (zfound == old(zfound) && zseq == old(zseq) && zkt == old(zkt) && err == old(err)))
 //@   guarantees [C01,C19:level-0-keeps-the-newest] (ferr == nil) ==> ((fkerr == nil && kcmp(ukey, fukey) == 0 && level <= 0) ==> (result && zseq >= old(zseq) && zseq >= fseq && (fseq >= old(zseq) ==> zfound) && (fseq >= old(zseq) ==> (zseq == fseq && zkt == fkt)) && (fseq < old(zseq) ==> (zseq == old(zseq) && zkt == old(zkt) && zfound == old(zfound)))))
 //@   guarantees [C01,C19:deeper-level-first-hit-decides] (ferr == nil) ==> ((fkerr == nil && kcmp(ukey, fukey) == 0 && level > 0) ==> (!result && (fkt == keyTypeVal ==> err == nil) && (fkt == keyTypeDel ==> err == old(err))))
 //@   guarantees [C01,C19:table-error-stops-the-walk] (ferr != nil && ferr != ErrNotFound) ==> (!result && err == ferr)
+// (C16: "not in this table" is also what a filter miss looks like; a table - of any level - that does not have the key
+// says nothing about older tables, so the walk goes on)
+//@   guarantees [C01,C16,C19:a-table-without-the-key-lets-the-walk-go-on] ferr == ErrNotFound ==> (result && zfound == old(zfound) && err == old(err))
 // Callback 2 runs after each level: a level-0 hit ends the lookup with the winner's value or, for a deletion
 // marker, with not-found.
 //@ func (*version).get$2
@@ -2274,21 +2293,21 @@ package leveldb
 // buffer and the frozen buffer (each one that exists) have been asked and had nothing for the key.
 //@ count memGet
 //@ func (*DB).get
-//@   props C01 C19
+//@   props C01 C19 C03
 //@   safety off
-//@   requires seq <= keyMaxSeq
+//@   requires [C01,C19:the-sequence-number-fits-an-internal-key] seq <= keyMaxSeq
 //@   loop 1
-//@     invariant [C01,C19:every-buffer-is-asked] calls("memGet") == old(calls("memGet")) + (auxm != nil ? 1 : 0) + ((rangeidx >= 1 && em != nil) ? 1 : 0) + ((rangeidx >= 2 && fm != nil) ? 1 : 0)
+//@     invariant [C01,C03,C19:every-buffer-is-asked] calls("memGet") == old(calls("memGet")) + (auxm != nil ? 1 : 0) + ((rangeidx >= 1 && em != nil) ? 1 : 0) + ((rangeidx >= 2 && fm != nil) ? 1 : 0)
 //@   at before call (*version).get#1
-//@     assert [C01,C19:buffers-before-tables] calls("memGet") == old(calls("memGet")) + (auxm != nil ? 1 : 0) + (em != nil ? 1 : 0) + (fm != nil ? 1 : 0)
+//@     assert [C01,C03,C19:buffers-before-tables] calls("memGet") == old(calls("memGet")) + (auxm != nil ? 1 : 0) + (em != nil ? 1 : 0) + (fm != nil ? 1 : 0)
 //@ func (*DB).has
-//@   props C01 C19
+//@   props C01 C19 C03
 //@   safety off
-//@   requires seq <= keyMaxSeq
+//@   requires [C01,C19:the-sequence-number-fits-an-internal-key] seq <= keyMaxSeq
 //@   loop 1
-//@     invariant [C01,C19:every-buffer-is-asked] calls("memGet") == old(calls("memGet")) + (auxm != nil ? 1 : 0) + ((rangeidx >= 1 && em != nil) ? 1 : 0) + ((rangeidx >= 2 && fm != nil) ? 1 : 0)
+//@     invariant [C01,C03,C19:every-buffer-is-asked] calls("memGet") == old(calls("memGet")) + (auxm != nil ? 1 : 0) + ((rangeidx >= 1 && em != nil) ? 1 : 0) + ((rangeidx >= 2 && fm != nil) ? 1 : 0)
 //@   at before call (*version).get#1
-//@     assert [C01,C19:buffers-before-tables] calls("memGet") == old(calls("memGet")) + (auxm != nil ? 1 : 0) + (em != nil ? 1 : 0) + (fm != nil ? 1 : 0)
+//@     assert [C01,C03,C19:buffers-before-tables] calls("memGet") == old(calls("memGet")) + (auxm != nil ? 1 : 0) + (em != nil ? 1 : 0) + (fm != nil ? 1 : 0)
 
 // C15 / C03 / C01: the probe of a lookup is the internal key (user key, the caller's sequence number, the seek kind):
 // it sorts before every entry of the key the caller may see and after every newer one. A probe with another sequence
@@ -2362,6 +2381,21 @@ package leveldb
 //@     assert [C07,C18:the-manifest-that-is-closed-is-the-sessions] recv == s.manifest
 //@   at before call io.Closer.Close#1
 //@     assert [C07,C18:the-manifest-file-that-is-closed-is-the-sessions] recv == s.manifestWriter
+
+// C08 / C02: how strict an iterator is about damaged blocks is the DB's setting combined with the caller's read
+// options (opt.GetStrict), and that is what the merged iterator over the sources is given - with the caller's options
+// alone the DB-wide default is lost and a scan silently skips the rest of a damaged table.
+//@ ghost var gIterStrict bool
+//@ func (*DB).newRawIterator
+//@   props C08
+//@   safety off
+//@   assumepre
+//@   at before call GetStrict#1
+//@     assert [C08:strictness-combines-the-dbs-setting-with-the-callers] arg0 == db.s.o.Options && arg1 == ro && arg2 == opt.StrictReader
+//@   at call GetStrict#1
+//@     ghost gIterStrict = result
+//@   at before call NewMergedIterator#1
+//@     assert [C08:the-merged-iterator-is-as-strict-as-decided] arg2 == gIterStrict
 
 // C03 / C18 / C07: giving a view back. A snapshot gives its registration back exactly once - the first Release does,
 // any later one does nothing (a second release would un-pin what another snapshot at the same sequence number still
